@@ -1,10 +1,11 @@
 import QipVerif.Lemmas.RenderLabels2
 /-! C20: `labels_in_order` — the invariant through `layout`. -/
 namespace QipVerif.Render
+variable {v : Variant}
 
-theorem step_reads {sty : Style} {N C : Nat} {st st' : St} {op : Op} (h : step sty N C st op = .ok st')
+theorem step_reads {sty : Style} {N C : Nat} {st st' : St} {op : Op} (h : step v sty N C st op = .ok st')
     (ht : noGlyph (opText op) = true) (q : Nat) (L : List Str) (w : Wire) (hq : st[q]? = some w) (hw : Reads L w) :
-    ∃ w', st'[q]? = some w' ∧ Reads (L ++ (opLabels op q).map (padded sty.pad)) w' := by
+    ∃ w', st'[q]? = some w' ∧ Reads (L ++ (opLabels N op q).map (padded sty.pad)) w' := by
   obtain ⟨pl, hpl, _, _, _, rfl⟩ := step_ok h
   obtain ⟨hclosed, hboxes⟩ := plan_boxes hpl ht q
   simp only [place, applyActs_eq, manageLayers_eq, adjustPad_eq, modAll_getElem?, hq, Option.map_some]
@@ -21,10 +22,10 @@ theorem step_reads {sty : Style} {N C : Nat} {st st' : St} {op : Op} (h : step s
     exact (reads_stable L).1 _ _ _ hw
   exact hw
 
-theorem steps_reads {sty : Style} {N C : Nat} {ops : List Op} {st st' : St} (h : steps sty N C st ops = .ok st')
+theorem steps_reads {sty : Style} {N C : Nat} {ops : List Op} {st st' : St} (h : steps v sty N C st ops = .ok st')
     (ht : ∀ op ∈ ops, noGlyph (opText op) = true) (q : Nat) (L : List Str) (w : Wire)
     (hq : st[q]? = some w) (hw : Reads L w) :
-    ∃ w', st'[q]? = some w' ∧ Reads (L ++ (ops.flatMap fun op => opLabels op q).map (padded sty.pad)) w' := by
+    ∃ w', st'[q]? = some w' ∧ Reads (L ++ (ops.flatMap fun op => opLabels N op q).map (padded sty.pad)) w' := by
   induction ops generalizing st L w with
   | nil => cases h; exact ⟨w, hq, by simpa using hw⟩
   | cons op ops ih =>
@@ -104,10 +105,10 @@ theorem labels_reads {sty : Style} {N C : Nat} {st0 : St} (h : addWireLabels sty
 
 /-- **`labels_in_order` on the state**: when `layout` prints, the middle row of wire `q` reads as
 the labels the circuit elements contribute to `q`, in circuit order. -/
-theorem layoutSt_reads {sty : Style} {c : Circ} {st : St} (h : layoutSt sty c = .ok st)
+theorem layoutSt_reads {sty : Style} {c : Circ} {st : St} (h : layoutSt v sty c = .ok st)
     (hl : ∀ ls, sty.labels = some ls → ∀ l ∈ ls, noGlyph l = true)
     (ht : ∀ op ∈ c.ops, noGlyph (opText op) = true) (q : Nat) (w : Wire) (hq : st[q]? = some w) :
-    readLabels sty.pad w.mid = c.ops.flatMap fun op => opLabels op q := by
+    readLabels sty.pad w.mid = c.ops.flatMap fun op => opLabels c.N op q := by
   obtain ⟨st0, st1, h0, h1, rfl⟩ := layoutSt_ok h
   have hq0 : ∃ w0, st0[q]? = some w0 := by
     obtain ⟨hk, _⟩ := List.getElem?_eq_some_iff.mp hq
@@ -116,7 +117,7 @@ theorem layoutSt_reads {sty : Style} {c : Circ} {st : St} (h : layoutSt sty c = 
     exact ⟨st0[q], List.getElem?_eq_getElem hk⟩
   obtain ⟨w0, hw0⟩ := hq0
   obtain ⟨w1, hq1, hw1⟩ := steps_reads h1 ht q [] w0 hw0 (labels_reads h0 hl q w0 hw0)
-  have hfin : Reads ([] ++ (c.ops.flatMap fun op => opLabels op q).map (padded sty.pad)) w := by
+  have hfin : Reads ([] ++ (c.ops.flatMap fun op => opLabels c.N op q).map (padded sty.pad)) w := by
     simp only [finalPad, adjustPad_eq, modAll_getElem?, hq1, Option.map_some, Option.some.injEq] at hq
     subst hq
     apply compAt_pred (Reads _) _ _ _ _ hw1
@@ -127,7 +128,7 @@ theorem layoutSt_reads {sty : Style} {c : Circ} {st : St} (h : layoutSt sty c = 
   unfold readLabels readBoxes
   rw [hfin]
   simp only [List.nil_append, List.map_map]
-  conv => rhs; rw [← List.map_id (c.ops.flatMap fun op => opLabels op q)]
+  conv => rhs; rw [← List.map_id (c.ops.flatMap fun op => opLabels c.N op q)]
   apply List.map_congr_left
   intro t _
   simp [strip_padded]
